@@ -1,4 +1,5 @@
-(** C15 — Bucket schema is preserved across restarts.
+(** C15 — Bucket schema is preserved across restarts (model of the code after the fixes d005c52 and
+    e807cb3 in /repo: unstorable schemas are rejected at creation).
     Statement file: theorems closed by [exact] of lemmas of Proofs/Header_facts.v, the full statements
     with their refutations, non-vacuity examples. *)
 From Coq Require Import String ZArith List Bool.
@@ -30,85 +31,68 @@ Proof. exact create_write_reload_ok. Qed.
 Print Assumptions C15_guarded.
 
 (** Every schema accepted by the guard [creatable] (what NewTimeBucketInfo is given) yields a storable
-    TimeBucketInfo, so the guarded property holds for buckets created through NewTimeBucketInfo. *)
+    TimeBucketInfo. *)
 Theorem C15_creatable_storable : forall tf descr year dsv rt,
   creatable tf descr year dsv rt = true -> storable (new_tbi tf descr year dsv rt) = true.
 Proof. exact creatable_storable. Qed.
 Print Assumptions C15_creatable_storable.
 
-(** Full statement: every creatable schema (names of ANY length, ANY column count), any later writes
-    including index 0 (the first daily interval of the year): creation is rejected or the schema read
-    back after the writes is the one created.  Refuted three times; each witness satisfies the guards
-    of the previous classes. *)
-Definition schema_dom (tf : Z) (descr : list byte) (year : Z) (dsv : list (list byte * Z)) (rt : Z) : bool :=
-  field_ok DESC descr && in_ityb I16 year && in_ityb I64 tf && in_ityb I8 rt
-  && forallb (fun s => (0 <=? snd s)%Z && (snd s <? 256)%Z) dsv.
-Definition names_storable (dsv : list (list byte * Z)) : bool :=
-  forallb (fun s => field_ok NAMEB (fst s)) (create_shapes dsv).
-Definition count_storable (dsv : list (list byte * Z)) : bool :=
-  (Z.of_nat (length (create_shapes dsv)) <=? maxNumElements)%Z.
+(** After the fixes d005c52 / e807cb3 in /repo (AddTimeBucket refuses what CheckStorable reports): for
+    EVERY schema of the property's domain — column names of ANY length and content, ANY column count —
+    and every list of writes at indices >= 1: creation is refused with an error, or the schema read back
+    after the writes and a restart is exactly the one created.  Names and column count are no longer
+    guards. *)
+Theorem C15_create_guarded : forall tf descr year dsv rt ws,
+  schema_dom tf descr year dsv rt = true -> writes_ok ws = true ->
+  let f := new_tbi tf descr year dsv rt in
+  create f = Rejected \/ create_write_reload f ws = Ok f.
+Proof. exact create_guarded. Qed.
+Print Assumptions C15_create_guarded.
+
+(** A schema that cannot be stored faithfully (more than 1024 elements, a name longer than 32 bytes or
+    with a NUL at an edge) is rejected at creation. *)
+Theorem C15_unstorable_rejected : forall f, check_storable f = false -> create f = Rejected.
+Proof. exact unstorable_rejected. Qed.
+Print Assumptions C15_unstorable_rejected.
+
+(** Full statement: every schema of the domain, any later writes INCLUDING index 0 (the first daily
+    interval of the year): creation is rejected or the schema read back after the writes is the one
+    created.  Still refuted by the remaining defect class (a format change is needed to repair it). *)
 Definition writes_dom (ws : list wop) : bool :=
   forallb (fun w => (0 <=? wop_idx w)%Z && (wop_idx w <? 2 ^ 31)%Z) ws.
 
 Definition preserved (tf : Z) (descr : list byte) (year : Z) (dsv : list (list byte * Z)) (rt : Z) (ws : list wop) : Prop :=
   let f := new_tbi tf descr year dsv rt in
-  encode_header f = Rejected \/ create_write_reload f ws = Ok f.
+  create f = Rejected \/ create_write_reload f ws = Ok f.
 
 Definition C15_full : Prop := forall tf descr year dsv rt ws,
   schema_dom tf descr year dsv rt = true -> writes_dom ws = true -> preserved tf descr year dsv rt ws.
-Definition C15_full_names : Prop := forall tf descr year dsv rt ws,
-  schema_dom tf descr year dsv rt = true -> writes_dom ws = true -> names_storable dsv = true ->
-  preserved tf descr year dsv rt ws.
-Definition C15_full_names_count : Prop := forall tf descr year dsv rt ws,
-  schema_dom tf descr year dsv rt = true -> writes_dom ws = true -> names_storable dsv = true ->
-  count_storable dsv = true -> preserved tf descr year dsv rt ws.
-
-Lemma encode_header_not_rejected f : encode_header f <> Rejected.
-Proof.
-  unfold encode_header. destruct (maxNumElements <? t_nelems f)%Z; [discriminate|].
-  destruct ((Z.of_nat (length (t_names f)) <? t_nelems f)%Z || (Z.of_nat (length (t_types f)) <? t_nelems f)%Z);
-    discriminate.
-Qed.
 
 Definition minute : Z := 60000000000%Z.
 Definition day : Z := 86400000000000%Z.
 Definition descr0 : list byte := bytes_of_string "Default"%string.
 
-(** class unstorable-column-name: a 33-byte column name is silently truncated to 32 bytes *)
+(** Regression (formerly C15_refuted / C15_refuted_count): the 33-byte column name and the 1025 columns
+    are now refused at creation. *)
 Definition C15_witness_name : list (list byte * Z) :=
   [ (epoch_col, ET_INT64); (repeat x41 33, ET_FLOAT32) ].
+Example C15_regression_name : create (new_tbi minute descr0 2024%Z C15_witness_name RT_FIXED) = Rejected.
+Proof. vm_compute. reflexivity. Qed.
 
-Theorem C15_refuted : ~ C15_full.
-Proof.
-  intros H. destruct (H minute descr0 2024%Z C15_witness_name RT_FIXED [] eq_refl eq_refl) as [Hr|Hr].
-  - exact (encode_header_not_rejected _ Hr).
-  - vm_compute in Hr. discriminate Hr.
-Qed.
-Print Assumptions C15_refuted.
-
-(** class too-many-elements: 1025 columns with storable names: creation panics (index out of range in
-    Header.Load), it is not rejected *)
 Definition C15_witness_count : list (list byte * Z) := repeat ([x61], ET_FLOAT32) 1025.
-
-Theorem C15_refuted_count : ~ C15_full_names.
-Proof.
-  intros H. destruct (H minute descr0 2024%Z C15_witness_count RT_FIXED [] eq_refl eq_refl eq_refl) as [Hr|Hr].
-  - exact (encode_header_not_rejected _ Hr).
-  - vm_compute in Hr. discriminate Hr.
-Qed.
-Print Assumptions C15_refuted_count.
+Example C15_regression_count : create (new_tbi minute descr0 2024%Z C15_witness_count RT_FIXED) = Rejected.
+Proof. vm_compute. reflexivity. Qed.
 
 (** class daily-jan1-write: 61 string16 columns (record length 3912 > the 2920 reserved tail bytes), daily
     timeframe, one record at index 0: it is written at Headersize - 3912 = 33112, over the type bytes of
     columns 32..60 *)
 Definition C15_witness_jan1 : list (list byte * Z) := repeat ([x63], ET_STRING16) 61.
 
-Theorem C15_refuted_jan1 : ~ C15_full_names_count.
+Theorem C15_refuted_jan1 : ~ C15_full.
 Proof.
   intros H.
-  destruct (H day descr0 2024%Z C15_witness_jan1 RT_FIXED [WFixed 0 (repeat xff 3904)]
-              eq_refl eq_refl eq_refl eq_refl) as [Hr|Hr].
-  - exact (encode_header_not_rejected _ Hr).
+  destruct (H day descr0 2024%Z C15_witness_jan1 RT_FIXED [WFixed 0 (repeat xff 3904)] eq_refl eq_refl) as [Hr|Hr].
+  - vm_compute in Hr. discriminate Hr.
   - vm_compute in Hr. discriminate Hr.
 Qed.
 Print Assumptions C15_refuted_jan1.
